@@ -2,7 +2,7 @@ from lanes import *  # noqa
 
 PROP = {
         "level": "exploration",
-        "level_text": "Seeded exploration with a linear-scan reference as oracle: 2*10^5 (quick) to 2*10^7 (thorough) (registrations, event) pairs - 0-12 registered paths over prefix-sharing segment names (a/aa/a_1, app/app2/app_util, v1/v10, Unicode), repeats, with and without a default, event modules that are equal / ancestor / descendant / sibling / textual-prefix sibling / detour through an unregistered segment / nested under an unregistered root, level values typed, textual in every documented form (also padded with ASCII whitespace and carried as owned String, foreign Display, OwnedValue, serde / sval capture or buffered in a ThreadLocalCtxt frame, and as long renderings with 30..5000 bytes of ignorable trailing detail), missing, numeric and junk - each answered by the real filter built through min_level calls, min_by_path_filter, FromIterator::collect and a de-duplicated shuffled re-registration, generically and through erased / boxed views. The documented textual level forms and the named sibling / detour scenarios are enumerated completely. Held-on-what-was-observed, not a proof over all path sets.",
+        "level_text": "Seeded exploration with a linear-scan reference as oracle: 3*10^5 (quick) to 9*10^7 (thorough) (registrations, event) pairs - 0-12 registered paths over prefix-sharing segment names (a/aa/a_1, app/app2/app_util, v1/v10, Unicode), repeats, with and without a default, event modules that are equal / ancestor / descendant / sibling / textual-prefix sibling / detour through an unregistered segment / nested under an unregistered root, level values typed, textual in every documented form (also padded with ASCII whitespace and carried as owned String, foreign Display, OwnedValue, serde / sval capture or buffered in a ThreadLocalCtxt frame, and as long renderings with 30..5000 bytes of ignorable trailing detail), missing, numeric and junk - each answered by the real filter built through min_level calls, min_by_path_filter, FromIterator::collect and a de-duplicated shuffled re-registration, generically and through erased / boxed views. The documented textual level forms and the named sibling / detour scenarios are enumerated completely. Held-on-what-was-observed, not a proof over all path sets.",
         "level_note": "Trusts the linear scan and the level table in harness/mon/src/bin/c17.rs (written from the statement and the documented textual forms). Events whose lvl value matches no documented form are checked for totality and for agreement between views only.",
         "technique": "runtime monitoring: linear-scan reference oracle over seeded registration lists, modules and level values; exhaustive enumeration of the documented level spellings and of named sibling scenarios",
         "assumptions": [
@@ -12,6 +12,6 @@ PROP = {
             "equal registered paths: the last registration wins (the shuffled re-registration is de-duplicated first)",
         ],
         "lanes": [
-            native("c17"),
+            native("c17", scale={"quick": 100, "thorough": 400}),
         ],
     }
